@@ -3,6 +3,7 @@ package interp
 import (
 	"fmt"
 	"go/types"
+	"math/big"
 )
 
 // packedMsg is the single pseudo-byte of a packed protobuf message: the codec
@@ -71,7 +72,53 @@ func prim_verifPack(fr *frame, args []value) value {
 	if !ok || p == nil {
 		panic(unsupported(fmt.Sprintf("verifPack of non-pointer %T", m.v)))
 	}
-	return []value{packedMsg{t: m.t, v: deepClone(*p, map[*value]*value{})}}
+	c := deepClone(*p, map[*value]*value{})
+	return []value{packedMsg{t: m.t, v: normalizeNilNumbers(mustDeref(m.t), c, 0)}}
+}
+
+// normalizeNilNumbers: the one place where a protobuf round trip is NOT the identity for the messages of
+// this repository: a cosmossdk.io/math.Int / LegacyDec without a value (nil *big.Int) is written as "0"
+// by its Marshal method and therefore read back as zero.
+func normalizeNilNumbers(t types.Type, v value, depth int) value {
+	if depth > 12 {
+		return v
+	}
+	if n, ok := t.(*types.Named); ok && n.Obj().Pkg() != nil && n.Obj().Pkg().Path() == "cosmossdk.io/math" && (n.Obj().Name() == "Int" || n.Obj().Name() == "LegacyDec") {
+		if st, ok := v.(structure); ok && len(st) == 1 {
+			if bp, ok := st[0].(*value); ok && bp == nil {
+				return structure{newBigPtr(new(big.Int), nil)}
+			}
+		}
+		return v
+	}
+	switch u := t.Underlying().(type) {
+	case *types.Struct:
+		st, ok := v.(structure)
+		if !ok || len(st) != u.NumFields() {
+			return v
+		}
+		for k := range st {
+			st[k] = normalizeNilNumbers(u.Field(k).Type(), st[k], depth+1)
+		}
+		return st
+	case *types.Pointer:
+		if pv, ok := v.(*value); ok && pv != nil {
+			*pv = normalizeNilNumbers(u.Elem(), *pv, depth+1)
+		}
+	case *types.Slice:
+		if sl, ok := v.([]value); ok {
+			for k := range sl {
+				sl[k] = normalizeNilNumbers(u.Elem(), sl[k], depth+1)
+			}
+		}
+	case *types.Array:
+		if ar, ok := v.(array); ok {
+			for k := range ar {
+				ar[k] = normalizeNilNumbers(u.Elem(), ar[k], depth+1)
+			}
+		}
+	}
+	return v
 }
 
 func prim_verifUnpack(fr *frame, args []value) value {
